@@ -56,3 +56,54 @@ Definition c01_incoherent_lib_refeed_refuted : Prop :=
     Forall (fun x => snd x = ROk) t /\ length t = length h /\
     c01_discipline_b (LExcl r0) t = true /\ c01_error_b (c_fail_at cfg) 0 t = true /\
     c01_refeed_b [] h t = false.
+
+(* ================================================================ what DOES hold for arbitrary declarations *)
+
+(* the same configuration with a handler that never fails *)
+Definition cfg_nofail (cfg : config) : config :=
+  mkCfg (c_first cfg) (c_incl cfg) (c_hold cfg) (c_kept cfg) (c_alltrig cfg) (c_filter cfg) None.
+
+(* the NUMBER of the LIB reference of the forkdb never decreases along the run (a condition on the model's
+   run, computable; it holds for every history of the classes moving_scope2_b / disc_scope2_b, where the LIB
+   number is the height of the LIB block: c01_wild_mono_subsumes) *)
+Fixpoint lib_mono_b (cfg : config) (s : fstate) (h : list block) : bool :=
+  match h with
+  | [] => true
+  | b :: rest =>
+      let '(s', _, r) := fk_step cfg s b in
+      (rn (libref (db s)) <=? rn (libref (db s'))) &&
+      match r with ROk => lib_mono_b cfg s' rest | _ => true end
+  end.
+
+(* The Undo/New DISCIPLINE and the error clause hold for EVERY well-formed history: no condition on the LIB
+   numbers blocks declare (c01_scope's quantifier), no coherence condition between the configured LIB and the
+   history (a child of r0 may be lower than r0, a block with r0's id may carry another number); only
+   r0's id must be non-empty.  Any handler oracle, includeInitialLIB flag, first streamable block, retention,
+   all-blocks-trigger, Irreversible/Stalled filter bits.  No call panics or exhausts the fuel of the walks. *)
+Definition c01_wild_discipline_statement : Prop :=
+  forall cfg r0 m h,
+    rooted_mode r0 m ->
+    f_new (c_filter cfg) = true -> f_undo (c_filter cfg) = true ->
+    wf_b h = true -> ri r0 <> 0 ->
+    let t := fk_run cfg (fs_init m) h in
+    c01_discipline_b m t = true /\ c01_error_b (c_fail_at cfg) 0 t = true /\
+    Forall (fun x => snd x = ROk \/ snd x = RHandlerErr) t /\
+    (c_fail_at cfg = None -> Forall (fun x => snd x = ROk) t /\ length t = length h).
+
+(* ... and the whole of c01_statement (with the re-feed clause) holds whenever the LIB number does not
+   decrease along the run of the never-failing handler: the exact condition that the two witnesses violate *)
+Definition c01_wild_mono_statement : Prop :=
+  forall cfg r0 m h,
+    rooted_mode r0 m ->
+    f_new (c_filter cfg) = true -> f_undo (c_filter cfg) = true ->
+    wf_b h = true -> ri r0 <> 0 ->
+    lib_mono_b (cfg_nofail cfg) (fs_init m) h = true ->
+    c01_statement cfg m h.
+
+(* the class of c01_moving_lib_roots_partial lies inside the class of c01_wild_mono_statement *)
+Definition c01_wild_mono_subsumes : Prop :=
+  forall cfg r0 m h,
+    rooted_mode r0 m ->
+    f_new (c_filter cfg) = true -> f_undo (c_filter cfg) = true ->
+    moving_scope2_b r0 h = true ->
+    wf_b h = true /\ ri r0 <> 0 /\ lib_mono_b (cfg_nofail cfg) (fs_init m) h = true.
